@@ -49,6 +49,7 @@ ARTICLE = {"type": "record", "name": "Article", "fields": [{"name": "id", "type"
 POOL = [
     "null", "boolean", "int", "long", "float", "double", "string", "bytes", family.E(), family.E2(), family.F(), {"type": "array", "items": "int"},
     {"type": "map", "values": "int"}, A, B, C, {"type": "int", "logicalType": "date"}, {"type": "double", "unit": "metres"}, A2, ZA, LB, LN, NARROW, WIDE, COMMENT, ARTICLE,
+    {"type": "fixed", "name": "Money", "size": 8, "logicalType": "decimal", "precision": 12, "scale": 2}, {"type": "bytes", "logicalType": "decimal", "precision": 12, "scale": 2},
 ]
 
 
@@ -83,7 +84,11 @@ def unions(tier):
             if legal(bs) and sum(1 for b in bs if isinstance(b, dict) and b.get("type") == "record") >= 2:
                 out.append(copy.deepcopy(bs))
         out.append(copy.deepcopy(["float", "string", "double"]))
-        out.append(copy.deepcopy(["float", {"type": "double", "unit": "m"}, "double"]) if False else copy.deepcopy(["null", "float", {"type": "double", "unit": "m"}]))
+    # 140 branches: primitives, then named types (the index of most branches does not fit one varint byte)
+    wide = ["null", "boolean", "int", "string", "bytes", "double"] + [{"type": "fixed", "name": "Wf%d" % i, "size": 1 + i % 3} for i in range(64)] + \
+           [{"type": "record", "name": "Wr%d" % i, "fields": [{"name": "w%d" % i, "type": "int"}]} for i in range(60)] + [{"type": "enum", "name": "We%d" % i, "symbols": ["A", "B%d" % i]} for i in range(10)]
+    out.append(wide)
+    out.append(copy.deepcopy(["null", "float", {"type": "double", "unit": "m"}]))
     return out
 
 
@@ -232,8 +237,14 @@ def check(fa, res, raw, parsed, node, defs, d, disable, seen):
     # read back WITH (name, value) pairs for named branches; a hint that selected a
     # branch the reader option does not report is outside the claim.
     hk = hint_kinds(node, defs, d, tuples)
+    try:
+        unreported_logical = took_unnamed_logical_branch(node, defs, rv, conform.Indices(idx))
+    except Exception:
+        unreported_logical = False
     for opts in READER_OPTS:
-        if "nonnamed" in hk:
+        if "nonnamed" in hk or unreported_logical:
+            # the value went to a branch that is never reported as a (name, value) pair and whose logical conversion
+            # changes the Python type on the way back: nothing is claimed about writing that value again
             continue
         if hk:
             if opts.get("return_named_type"):
@@ -257,6 +268,34 @@ def check(fa, res, raw, parsed, node, defs, d, disable, seen):
             continue
         if again != b1 and (opts.get("return_named_type") or opts.get("return_record_name")):
             res.add(Violation("c09.closure", "rewrite-differs", f"read with {opts} -> {short(back, 200)} -> written back {again.hex()} != {b1.hex()} | {short(info, 300)}", dict(info, reader_opts=opts)))
+
+
+def took_unnamed_logical_branch(node, defs, v, indices):
+    """Did any union in this (decoded, underlying) value take a branch that is not a named type and carries a logical type?"""
+    n = names.deref(node, defs)
+    k = n["k"]
+    if k == "union":
+        b = n["branches"][indices.next()]
+        bn = names.deref(b, defs)
+        if bn["k"] not in ("record", "enum", "fixed") and "logical" in bn:
+            return True
+        return took_unnamed_logical_branch(b, defs, v, indices)
+    if k == "record":
+        hit = False
+        for f in n["fields"]:
+            hit = took_unnamed_logical_branch(f["type"], defs, v[f["name"]], indices) or hit
+        return hit
+    if k == "array":
+        hit = False
+        for x in v:
+            hit = took_unnamed_logical_branch(n["items"], defs, x, indices) or hit
+        return hit
+    if k == "map":
+        hit = False
+        for x in v.values():
+            hit = took_unnamed_logical_branch(n["values"], defs, x, indices) or hit
+        return hit
+    return False
 
 
 def hint_kinds(node, defs, d, tuples):
@@ -347,6 +386,8 @@ def run_unit(i, tier):
     nseen = 0
     ctxs = contexts(u)
     tw = twin_union(u)
+    if len(u) > 20:
+        ctxs, tw = ctxs[:3], u
     if tw != u:
         # version 2 of the named types, then version 1 again, in the same process
         ctxs += [("twin:" + c, r) for c, r in contexts(tw)[:2]] + [("again:" + c, r) for c, r in contexts(u)[:2]]
@@ -370,16 +411,24 @@ def run_unit(i, tier):
             # hints must use full names in this context
             fixed = []
             for d in udata:
-                if isinstance(d, tuple) and len(d) == 2 and d[0] in ("A", "B", "C", "E", "E2", "F", "A2", "ZA", "Labelled", "MaybeLabelled", "Narrow", "Wide", "Comment", "Article"):
+                if isinstance(d, tuple) and len(d) == 2 and d[0] in ("A", "B", "C", "E", "E2", "F", "A2", "ZA", "Labelled", "MaybeLabelled", "Narrow", "Wide", "Comment", "Article", "Money"):
                     fixed.append(("nsw." + d[0], d[1]))
-                if isinstance(d, dict) and d.get("-type") in ("A", "B", "C", "A2", "ZA", "Labelled", "MaybeLabelled", "Narrow", "Wide", "Comment", "Article"):
+                if isinstance(d, dict) and d.get("-type") in ("A", "B", "C", "A2", "ZA", "Labelled", "MaybeLabelled", "Narrow", "Wide", "Comment", "Article", "Money"):
                     fixed.append(dict(d, **{"-type": "nsw." + d["-type"]}))
                 fixed.append(d)
             data = [dict(base, u=d) for d in fixed]
         else:
             unode = node
-            udata = [d for d, c in alphabet.variants(names.resolve(copy.deepcopy(u))[0], names.resolve(copy.deepcopy(u))[1], 1, hints=True, big=False)]
-            udata += ambiguous(u)
+            if len(u) > 20:
+                # a very wide union: every branch once plain and once hinted (indices beyond 63 need a second index byte)
+                un, ud = names.resolve(copy.deepcopy(u))
+                udata = []
+                for br in un["branches"]:
+                    v = alphabet.base(br, ud)
+                    udata += [v, (names.branch_name(br, ud), v)]
+            else:
+                udata = [d for d, c in alphabet.variants(names.resolve(copy.deepcopy(u))[0], names.resolve(copy.deepcopy(u))[1], 1, hints=True, big=False)]
+                udata += ambiguous(u)
             data = [embed(ctx, d) for d in udata]
         for d in data:
             for disable in (False, True):
